@@ -54,6 +54,7 @@ type modelReference struct {
 	OutputWriter          *gio.PipeWriter
 	OutputProcess         *exec.Cmd
 	outputsInitialised    bool
+	outputWriterClosed    bool
 }
 
 func initModel(fn, model, paramFn string) (*modelReference, error) {
@@ -322,15 +323,25 @@ func (mr *modelReference) writeProtobuf(generation int) error {
 	verifEvent("psendend", "model", mr.ModelName, "gen", generation)
 
 	if generation == len(mr.Batches)-1 {
-		fmt.Printf("Waiting for output writer for %s to close\n", mr.ModelName)
-		mr.OutputWriter.Close()
-		verifEvent("pclose", "model", mr.ModelName)
-		mr.OutputProcess.Wait()
-		verifEvent("pwaitend", "model", mr.ModelName)
-		fmt.Printf("Output writer for %s closed\n", mr.ModelName)
+		mr.closeOutputWriter()
 	}
 
 	return nil
+}
+
+// closeOutputWriter tells the external writer process (if there is one) that nothing more will come and waits until
+// it has written what it received. Does nothing when called again.
+func (mr *modelReference) closeOutputWriter() {
+	if mr.OutputProcess == nil || mr.outputWriterClosed {
+		return
+	}
+	mr.outputWriterClosed = true
+	fmt.Printf("Waiting for output writer for %s to close\n", mr.ModelName)
+	verifEvent("pclose", "model", mr.ModelName)
+	mr.OutputWriter.Close()
+	mr.OutputProcess.Wait()
+	verifEvent("pwaitend", "model", mr.ModelName)
+	fmt.Printf("Output writer for %s closed\n", mr.ModelName)
 }
 
 func (mr *modelReference) generationLocation(generation int) int32 {
